@@ -56,7 +56,7 @@ specs = {
          "every pool key x JWK alg attribute x private/public x explicit alg x route {setkey, callback sets key only, callback sets key and alg, setkey then callback removes key}; token decoded by an independent reader", True),
     ])'''),
  "c04": dict(doc="C04 -- claim checks exactly as configured: theorems + claims suite under a controlled clock.",
-   mods=["Jwt.Props.C04"], files=["Jwt/Props/C04.lean"], gen=3,
+   mods=["Jwt.Props.C04"], files=["Jwt/Props/C04.lean"], gen=5,
    level="Lean theorems: exp/nbf thresholds, type rule, generated defaults and disable bound, string equality, enforcement for every accepted token, and refinement of every configuration history to a last-writer-wins policy (induction over op lists). Tied to the code by threshold/leeway/clock grids, 64-bit extremes, every JSON type per claim, string pairs, and exhaustive configuration sequences judged against the property's own semantics.",
    assume=[],
    body='''    F.run_suites(ctx, model_ok, deep, [
@@ -93,7 +93,7 @@ specs = {
          S.falsify_builder_routes, "generate with every key (incl. RSA-1024, oct 16/47 bytes, every curve) x explicit algorithms x routes: fails below the floor or across families, signs at/above it", True),
     ])'''),
  "c13": dict(doc="C13 -- verdict depends only on configuration, token and clock (checker side).",
-   mods=["Jwt.Props.C13"], files=["Jwt/Props/C13.lean"], gen=0,
+   mods=["Jwt.Props.C13"], files=["Jwt/Props/C13.lean"], gen=3,
    level="Lean theorems: one call's return value is independent of the prior error state and leaves the configuration unchanged; by induction over any history of verify/error_clear calls every verdict equals a fresh identically configured checker's; the same for generate on builders (token and configuration). Tied to the code by exhaustive call sequences over an 11-token alphabet + error_clear, each verdict compared with a fresh checker's on the real library.",
    assume=[],
    body='''    F.run_suites(ctx, model_ok, deep, [
@@ -160,7 +160,7 @@ specs = {
          "per key x admissible alg: random header/claim JSON trees (nesting<=6, unicode, 64-bit extremes, reals, empty containers, 4 KiB strings), sign under openssl|gnutls, verify under openssl|gnutls with the public half, read header+claims in the checker callback; plus ECDSA volume runs", False),
     ])'''),
  "c10": dict(doc="C10 -- generated tokens are well-formed and say exactly what the builder was told.",
-   mods=["Jwt.Props.C10"], files=["Jwt/Props/C10.lean", "Jwt/Lemmas/PipelineBuilder.lean"], gen=5,
+   mods=["Jwt.Props.C10"], files=["Jwt/Props/C10.lean", "Jwt/Lemmas/PipelineBuilder.lean"], gen=6,
    level="Lean theorems for every builder state and callback: token shape (three unpadded base64url parts, none <-> empty third), header = per-token headers with alg forced and typ defaulted (jwt_head_setup as two typed-map sets), claims = builder claims overridden by iat/nbf/exp, offsets on iff > 0 (generated __DISABLE), configuration untouched by generate, public-only keys refused. Tied to the code by configuration sequences + generate at several clocks with full token equality against the model and an independent decode against a Python builder spec.",
    assume=[],
    body='''    F.run_suites(ctx, model_ok, deep, [
